@@ -395,12 +395,20 @@ func run(rc *kernel.RunCtx) {
 				return
 			}
 		}
-		wantMsgs := "inner"
-		if logEnabled {
-			wantMsgs = "started,inner,finished"
+		// Only the context logger's record and the "finished" record are part
+		// of the statement; a "started" record is not.
+		nInner, nFinished := 0, 0
+		for _, m := range msgs {
+			switch m {
+			case "inner":
+				nInner++
+			case "finished":
+				nFinished++
+			}
 		}
-		if strings.Join(msgs, ",") != wantMsgs {
-			rc.Fail("log-records", "LogMiddleware.Wrap", fmt.Sprintf("request %d produced log records %v, want %s", sp.id, msgs, wantMsgs))
+		if nInner != 1 || nFinished > 1 || (logEnabled && nFinished != 1) {
+			rc.Fail("log-records", "LogMiddleware.Wrap", fmt.Sprintf(
+				"request %d produced log records %v, want one record of the handler's own and (logging enabled: %v) one \"finished\"", sp.id, msgs, logEnabled))
 
 			return
 		}
